@@ -2,6 +2,7 @@
 semantics-preserving source transformations, for the process-level checks.
 Every random choice derives from one integer seed (splitmix64)."""
 import copy
+import re
 
 
 class Rng:
@@ -250,6 +251,10 @@ def add_noise(project, seed):
                 t = rng.pick(NOISE)
                 k += 1
                 nb.append(t.replace("%d", str(k)))
+            m = re.search(r"^pub (struct|enum) (\w+) \{", b, re.M)
+            if m and b.startswith("#[derive(") and "Serialize" in b and rng.chance(1, 3):
+                # a twin of a serde type for another build configuration, without the derive (no serde item), placed first
+                nb.append("#[cfg(feature = \"mock\")]\npub struct %s {\n    pub mocked: bool,\n}\n" % m.group(2))
             nb.append(b)
         p2["files"][path] = nb
     # an extra file with no commands and no serde types
